@@ -11,7 +11,7 @@ pub fn def() -> PropertyDef {
     PropertyDef {
         id: "C01",
         level: "exploration",
-        scenarios: vec![Box::new(RuleSteps), Box::new(Kernel)],
+        scenarios: vec![Box::new(RuleSteps), Box::new(Kernel), Box::new(CallbackPanics)],
         assumptions: vec![
             "the acceptance draw is the next uniform of the chain's public generator (as the property's anchor states); it is injected through a crafted SmallRng state, self-checked against rand on every start",
             "table values are dyadic rationals (exact sums in f32 and f64) or, for generic reals, decisions within 16 ulp of the threshold are counted as ambiguous and not judged",
@@ -593,5 +593,118 @@ impl Scenario for Kernel {
     }
     fn components(&self) -> Value {
         json!({"real": ["MHMarkovChain::step (every probe of the bisection is one real step)"], "stub": ["table Target/Proposal", "crafted acceptance generator"]})
+    }
+}
+
+
+// ---- fault: one of the user's callbacks of a step panics and the caller catches it ---------------
+/// log-density / proposal with a shared fuse: the k-th evaluation (target or proposal density) after
+/// arming panics; candidates are drawn around the current state
+#[derive(Clone)]
+struct FuseTarget {
+    fuse: std::sync::Arc<std::sync::atomic::AtomicI64>,
+}
+impl FuseTarget {
+    fn tick(&self) {
+        if self.fuse.fetch_sub(1, std::sync::atomic::Ordering::SeqCst) == 1 {
+            panic!("VERIF-INJECTED callback failure");
+        }
+    }
+}
+impl Target<f64, f64> for FuseTarget {
+    fn unnorm_logp(&self, x: &[f64]) -> f64 {
+        self.tick();
+        -0.5 * x.iter().map(|v| v * v).sum::<f64>()
+    }
+}
+#[derive(Clone)]
+struct FuseProposal {
+    t: FuseTarget,
+    rng: rand::rngs::SmallRng,
+}
+impl Proposal<f64, f64> for FuseProposal {
+    fn sample(&mut self, c: &[f64]) -> Vec<f64> {
+        use rand::Rng;
+        c.iter().map(|x| x + self.rng.random::<f64>() - 0.5).collect()
+    }
+    fn logp(&self, from: &[f64], to: &[f64]) -> f64 {
+        self.t.tick();
+        -from.iter().zip(to).map(|(a, b)| (a - b).abs()).sum::<f64>()
+    }
+    fn set_seed(mut self, s: u64) -> Self {
+        use rand::SeedableRng;
+        self.rng = rand::rngs::SmallRng::seed_from_u64(s);
+        self
+    }
+}
+
+struct CallbackPanics;
+impl Scenario for CallbackPanics {
+    fn name(&self) -> &'static str {
+        "callback_panics"
+    }
+    fn runs(&self, tier: Tier) -> u64 {
+        tier.pick(4000, 400_000)
+    }
+    fn generate(&self, g: &mut Gen, _t: Tier, _i: u64) -> Value {
+        json!({"d": g.usize(1, 3), "seed": g.u64(), "steps_before": g.usize(0, 5), "fail_eval": g.usize(1, 4), "steps_after": g.usize(1, 4)})
+    }
+    fn execute(&self, p: &Value, _ws: bool) -> Outcome {
+        use rand::SeedableRng;
+        let mut o = Outcome::default();
+        let d = pus(p, "d");
+        let fuse = std::sync::Arc::new(std::sync::atomic::AtomicI64::new(i64::MAX / 2));
+        let t = FuseTarget { fuse: fuse.clone() };
+        let prop = FuseProposal { t: t.clone(), rng: rand::rngs::SmallRng::seed_from_u64(pu(p, "seed") ^ 1) };
+        let mut chain = MHMarkovChain::new(t, prop, vec![0.25; d]);
+        chain.rng = rand::rngs::SmallRng::seed_from_u64(pu(p, "seed"));
+        o.hash = str_hash(&p.to_string());
+        for _ in 0..pus(p, "steps_before") {
+            chain.step();
+        }
+        let before: Vec<u64> = chain.current_state.iter().map(|v| v.to_bits()).collect();
+        // arm: the k-th density evaluation of the next step fails (a step makes four: p(y), p(x), q(x|y), q(y|x))
+        fuse.store(pus(p, "fail_eval") as i64, std::sync::atomic::Ordering::SeqCst);
+        let _ = mcmc_sim::sim::take_last_panic();
+        let r = std::panic::catch_unwind(std::panic::AssertUnwindSafe(|| {
+            chain.step();
+        }));
+        fuse.store(i64::MAX / 2, std::sync::atomic::Ordering::SeqCst);
+        let fired = r.is_err();
+        o.count("fault_callback_panicked", fired as u64);
+        o.nontrivial = fired;
+        if fired {
+            let m = mcmc_sim::sim::take_last_panic().unwrap_or_default();
+            if !m.contains("VERIF-INJECTED") {
+                let loc = m.rsplit(" @ ").next().unwrap_or("").to_string();
+                o.violate("panic", &format!("MH::step:panic@{loc}"), m);
+                return o;
+            }
+            // no decision was taken in that step: the chain is at x, bit for bit
+            let now: Vec<u64> = chain.current_state.iter().map(|v| v.to_bits()).collect();
+            if now != before {
+                o.violate("state_changed_without_decision", "MH::step:state-changed-by-a-step-that-failed-before-its-decision", format!("evaluation {} of the step failed (caught by the caller); the chain was at {:?} and is now at {:?}", pus(p, "fail_eval"), before.iter().map(|b| f64::from_bits(*b)).collect::<Vec<_>>(), chain.current_state));
+                return o;
+            }
+        }
+        for _ in 0..pus(p, "steps_after") {
+            let r = std::panic::catch_unwind(std::panic::AssertUnwindSafe(|| {
+                chain.step();
+            }));
+            if r.is_err() {
+                let m = mcmc_sim::sim::take_last_panic().unwrap_or_default();
+                let loc = m.rsplit(" @ ").next().unwrap_or("").to_string();
+                o.violate("panic", &format!("MH::step(after-fault):panic@{loc}"), m);
+                return o;
+            }
+        }
+        o.work = 1;
+        o
+    }
+    fn rule(&self) -> &'static str {
+        "one run = an MH chain (d 1..3) in whose step after 0..5 ordinary steps the k-th density evaluation (k = 1..4: target at y, target at x, q(x|y), q(y|x)) panics, the caller catching it; no decision was taken, so the chain must be at x bit for bit, and later steps must work; non-trivial = the fault fired"
+    }
+    fn components(&self) -> Value {
+        json!({"real": ["MHMarkovChain::step"], "stub": ["target / proposal with a shared one-shot fuse"]})
     }
 }
